@@ -449,6 +449,13 @@ class ShapesGraph(object):
                                         _found_child_bnodes.append(item)
                             elif isinstance(p_e, (rdflib.BNode, rdflib.URIRef)):
                                 _found_child_bnodes.append(p_e)
+                # the sibling shapes of a qualified value shape (sh:qualifiedValueShapesDisjoint) are needed to count its values
+                if SH_qualifiedValueShape in has_shape_expecting_p:
+                    for parent in g.subjects(SH_property, s):
+                        for sibling_ps in g.objects(parent, SH_property):
+                            for qvs in g.objects(sibling_ps, SH_qualifiedValueShape):
+                                if isinstance(qvs, (rdflib.BNode, rdflib.URIRef)):
+                                    _found_child_bnodes.append(qvs)
                 # the condition shapes of this shape's rules are needed to run the rules
                 for rule_node in g.objects(s, SH_rule):
                     for cond in g.objects(rule_node, SH_condition):
